@@ -49,8 +49,10 @@ def get_boolean_attribute(attribute_list, name, default_value=None):
         requested attribute is not found or has a non-boolean value.
     """
     attribute_value = get_attribute(attribute_list, name)
-    if not attribute_value or not attribute_value.expression.has_field(
-        "boolean_constant"
+    if (
+        not attribute_value
+        or not attribute_value.has_field("expression")
+        or not attribute_value.expression.has_field("boolean_constant")
     ):
         return default_value
     return attribute_value.expression.boolean_constant.value
@@ -72,6 +74,7 @@ def get_integer_attribute(attribute_list, name, default_value=None):
     attribute_value = get_attribute(attribute_list, name)
     if (
         not attribute_value
+        or not attribute_value.has_field("expression")
         or attribute_value.expression.type.which_type != "integer"
         or not is_constant(attribute_value.expression)
     ):
